@@ -550,7 +550,7 @@ def set_mode_global(mode):
 
 def run_case(ctx, repo, case):
     set_mode_global(case.get("mode", "gregorian"))
-    repo.set_mode(MODE)
+    repo.set_mode(MODE, case)
     try:
         _run_case(ctx, repo, case)
     finally:
